@@ -157,7 +157,9 @@ inline Verdict guarded(const std::function<Verdict()> &eval) {
         v.sig = "assert:" + file + ":" + expr;
     } catch (std::exception &e) {
         v = Verdict();
-        v.fail(std::string("uncaught std::exception: ") + e.what(), "uncaught-exception");
+        std::string w = e.what(), k;
+        for (char ch : w) { if (k.size() >= 40) break; k += isalnum((unsigned char)ch) ? ch : '-'; }
+        v.fail(std::string("uncaught std::exception: ") + w, "exception:" + k);
     } catch (const char *e) {
         v = Verdict();
         v.fail(std::string("uncaught char* exception: ") + e, "uncaught-exception");
